@@ -115,13 +115,16 @@ func hashBytes(b []byte) string { s := sha256.Sum256(b); return hex.EncodeToStri
 // ---------------------------------------------------------------- shapes
 
 type isoShape struct {
-	name  string
-	yaml  string
-	root  string
-	fresh map[string]string // format -> hash of the package built from a fresh parse
+	signed bool // deb and rpm signatures carry their creation time: the bytes of those two are not comparable between builds
+	name   string
+	yaml   string
+	root   string
+	fresh  map[string]string // format -> hash of the package built from a fresh parse
 }
 
 // isoShapes builds configurations that exercise every kind of shared object.
+var isoWithSigned bool
+
 func isoShapes(scratch string, rng *rand.Rand, n int) []*isoShape {
 	var out []*isoShape
 	mk := func(name string, mut func(c *Cfg, nodes *[]Node), extraYAML string) {
@@ -186,6 +189,7 @@ func isoShapes(scratch string, rng *rand.Rand, n int) []*isoShape {
 			{Type: "file", Src: "src/bin", Dst: "/usr/bin/tool"}}
 	}, "")
 	mk("arch-translation", func(c *Cfg, n *[]Node) { c.Arch = "arm6"; c.Release = "" }, "")
+	mk("other-platform", func(c *Cfg, n *[]Node) { c.Platform, c.Arch = "freebsd", "arm64" }, "")
 	// a payload file above every buffer / block threshold a packager may special-case (1 MiB and a bit)
 	mk("large-file", func(c *Cfg, n *[]Node) {
 		b := bytes.Repeat([]byte("0123456789abcdef0123456789ABCDEF0123456789abcdef0123456789ABCDE\n"), (1<<20)/64+3)
@@ -208,6 +212,14 @@ func isoShapes(scratch string, rng *rand.Rand, n int) []*isoShape {
 		c.Entries = append(c.Entries, Entry{Type: "dir", Dst: "/var/lib/isopkg/"}, Entry{Type: "file", Src: "src/sub/", Dst: "/usr/share/isopkg//sub/"},
 			Entry{Type: "symlink", Src: "/usr/bin/../bin/tool", Dst: "/usr/bin/./t3"})
 	}, "")
+	if isoWithSigned { // only the concurrent family: every format that can be signed is (key files of the repository's test data)
+		td := repoDir + "/internal/sign/testdata/"
+		mk("signed", func(c *Cfg, n *[]Node) {
+			c.DebSigKey, c.RpmSigKey, c.ApkSigKey, c.ApkSigKeyName = td+"privkey_unprotected.asc", td+"privkey_unprotected.asc", td+"rsa_unprotected.priv", "origin"
+		}, "")
+		out[len(out)-1].signed = true
+		n++
+	}
 	for i := 0; len(out) < n; i++ {
 		pc := genPkgCase(rng, 1000+i, "payload", scratch, "quick")
 		pc.Cfg.Pmt = 1600000000
@@ -321,7 +333,7 @@ func permutations(xs []string) [][]string {
 func famIso(tr *Trace, scratch string, seed int64, tier string, workers int, behaviours string) M {
 	os.Unsetenv("SOURCE_DATE_EPOCH")
 	rng := rand.New(rand.NewSource(seed + 99))
-	nshapes := 16
+	nshapes := 17
 	maxLen := 2
 	if tier == "thorough" {
 		nshapes, maxLen = 40, 3
@@ -453,11 +465,13 @@ func famIso(tr *Trace, scratch string, seed int64, tier string, workers int, beh
 func famConc(tr *Trace, scratch string, seed int64, tier string) M {
 	os.Unsetenv("SOURCE_DATE_EPOCH")
 	rng := rand.New(rand.NewSource(seed + 7))
-	nshapes, iters := 15, 12
+	nshapes, iters := 16, 12
 	if tier == "thorough" {
 		nshapes, iters = 20, 40
 	}
+	isoWithSigned = true
 	shapes := isoShapes(scratch, rng, nshapes)
+	isoWithSigned = false
 	// the first set of every shape has every format twice: whatever a packager initialises or records on first use is
 	// first used by several goroutines at once
 	sets := [][]string{append(append([]string{}, allFormats...), allFormats...), {"deb", "deb"}, {"deb", "ipk"}, {"deb", "rpm"}, {"apk", "archlinux"},
@@ -578,6 +592,9 @@ func famConc(tr *Trace, scratch string, seed int64, tier string) M {
 		for _, res := range cr.outs {
 			for gi, f := range cr.set {
 				total++
+				if cr.s.signed && (f == "deb" || f == "rpm") && res[gi] != "err" && res[gi] != "panic" {
+					continue // an OpenPGP signature carries its creation time: built is all that can be said
+				}
 				if res[gi] != seqOf[cr.s.name][f] {
 					mismatches++
 				}
